@@ -13,7 +13,7 @@ def status_table():
         c = d['coverage']
         fns = [x['function'].split(':')[-1] for x in c.get('functions_under_contract', []) if x.get('mode') == 'deductive']
         bounded = [x['function'].split(':')[-1] for x in c.get('functions_under_contract', []) if x.get('mode') != 'deductive']
-        assumed = [t.split('assumed contract: ')[1].split(':')[-1] for t in c.get('trusted_base', []) if t.startswith('assumed contract: ')]
+        assumed = [t.split('assumed contract: ')[1].split(' — ')[0].split(':')[-1] for t in c.get('trusted_base', []) if t.startswith('assumed contract: ')]
         rows.append('| %s | %s | %s%s | %s/%s | %s | %s / %s | %s |' % (
             d['property_id'], d['level'], ', '.join(fns) or '–', (' (unsupported: ' + ', '.join(bounded) + ')') if bounded else '',
             c.get('discharged', 0), c.get('obligations', 0), ', '.join(assumed) or '–',
